@@ -1924,6 +1924,16 @@ impl NodeMut for XmlElement {
             return Err(error::DomException::WrongDocumentErr)?;
         }
 
+        // A merged text node stands for a run of text, reference and CDATA section nodes.
+        if let XmlNode::ExpandedText(text) = old_child {
+            for (i, data) in text.data.iter().enumerate() {
+                if self.element.borrow().delete(data.id()).is_none() && i == 0 {
+                    return Err(error::DomException::NotFoundErr)?;
+                }
+            }
+            return Ok(old_child.clone());
+        }
+
         match self.element.borrow().delete(old_child.id()) {
             Some(v) => Ok(XmlNode::from(v)),
             _ => Err(error::DomException::NotFoundErr)?,
